@@ -174,7 +174,7 @@ def gen_graph(rng, n_nodes=8, n_classes=3, n_props=4, bnodes=False,
     classes = [EX + "C%d" % i for i in range(n_classes)]
     if rng.random() < odd_classes:
         # valid class IRIs whose local name is not a plain word (shape labels are derived from it)
-        classes = [EX + "C%d,x" % i for i in range(n_classes)]
+        classes = [EX + rng.choice(["C%d,x", "Cafe\u0301%d"]) % i for i in range(n_classes)]    # comma; 'e' + combining acute (not NFC)
     if same_local_classes and n_classes >= 2 and rng.random() < same_local_classes:
         # two classes of different vocabularies that share their local name (foaf:Person / schema:Person)
         classes[1] = OTHER + classes[0][len(EX):]
@@ -186,11 +186,12 @@ def gen_graph(rng, n_nodes=8, n_classes=3, n_props=4, bnodes=False,
         # the same local name in two vocabularies (ex:p0 and oth:p0)
         props.append((OTHER if props[0].startswith(EX) else EX) + props[0][max(props[0].rfind("/"), props[0].rfind("#")) + 1:])
     nodes = []
+    colon_names = rng.random() < 0.1        # local names with a ':' inside (legal in Turtle prefixed names too)
     for i in range(n_nodes):
         if bnodes and rng.random() < 0.3:
             nodes.append(("b", "_:b%d" % i))
         else:
-            nodes.append(iri(EX + "n%d" % i))
+            nodes.append(iri(EX + ("item:%d" % i if colon_names else "n%d" % i)))
     triples = set()
     for n in nodes:
         k = rng.choice([0, 1, 1, 1, 2, 2, 3]) if multi_class else rng.choice([0, 1, 1, 1])
@@ -432,10 +433,10 @@ def _prefix_table(triples):
 
 def _pname_ok(local):
     import re
-    return re.match(r"^[A-Za-z][A-Za-z0-9_]*$", local) is not None
+    return re.match(r"^[A-Za-z][A-Za-z0-9_]*(:[A-Za-z0-9_]+)*$", local) is not None
 
 
-def to_turtle(triples, group=True, use_a=True, dialect="standard", prefixed_custom_datatypes=False, label_salt=0, base=None, full_nonhttp=False, rebind=False, comments=False, stable_labels=False):
+def to_turtle(triples, group=True, use_a=True, dialect="standard", prefixed_custom_datatypes=False, label_salt=0, base=None, full_nonhttp=False, rebind=False, comments=False, stable_labels=False, clash_labels=False):
     """Turtle with @prefix lines, prefixed names, 'a', ';' and ',' grouping.
     dialect='iter': the subset sheXer's streaming reader documents (closures are
     separate tokens; datatypes written with the xsd: prefix or as full IRIs)."""
@@ -444,6 +445,10 @@ def to_turtle(triples, group=True, use_a=True, dialect="standard", prefixed_cust
     table = _prefix_table(triples)
     if stable_labels:
         table = {ns: "n%d" % i for i, ns in enumerate(sorted(table))}     # depends on the set of namespaces only
+    if clash_labels:
+        # the document's labels are the caller's usual ones, bound to other namespaces
+        pool = ["ex", "xsd", "rdf", "rdfs", "oth", "exn", "xml"]
+        table = {ns: pool[(i + 1) % len(pool)] + ("" if i < len(pool) else str(i)) for i, ns in enumerate(table)}
     if label_salt:
         # rotate the labels: the same label then names different namespaces in different documents of one delivery
         keys = list(table)
@@ -461,7 +466,7 @@ def to_turtle(triples, group=True, use_a=True, dialect="standard", prefixed_cust
             if pred and use_a and t[1] == RDF_TYPE:
                 return "a"
             ns, local = _split_iri(t[1])
-            if base and t[1].startswith(base) and _pname_ok(t[1][len(base):]):
+            if base and t[1].startswith(base) and _pname_ok(t[1][len(base):]) and ":" not in t[1][len(base):]:
                 return "<%s>" % t[1][len(base):]      # relative IRI
             if ns and _pname_ok(local) and not (full_nonhttp and not t[1].startswith("http")):
                 return "%s:%s" % (table[ns], local)
